@@ -7,6 +7,7 @@
    (vh c14 cases vs Model/TreeRun.v) runs the same `step` against the real implementation. *)
 From Coq Require Import NArith List Bool.
 From TV Require Import Model.Tree Proofs.TreeLists Proofs.TreeSlotMap Proofs.TreeProofs Proofs.TreeExamples.
+From TV Require Import Model.TreeImp Gen.TreeBodiesGen Model.TreeGenStep Proofs.TreeBodiesProofs.
 Import ListNotations.
 
 (* ---- the invariant.  WF t = the three slot maps satisfy the slot-map invariant (free list acyclic through vacant slots,
@@ -189,6 +190,69 @@ Example C14_pre_needed_example :
   (exists t outs, run tree_new (firstn 4 bad_history) = Ok (t, outs) /\ ~ pre (abs t) (OAddChild k2 k3)).
 Proof. split; [exact bad_history_breaks | exact bad_history_violates_pre]. Qed.
 
+(* ---- the tie to the source: the bodies of 14 methods are translated from src/tree/taffy_tree.rs on every run
+   (translator/gen_tree.py -> Gen/TreeBodiesGen.v, statement by statement into the target language Model/TreeImp.v, the
+   whole state threaded in source order, `mark_dirty(..)?` recognised) and each is EQUAL to the hand-written method of
+   Model/Tree.v that the theorems above are about: every state (no WF premise), every argument, panics included. *)
+Theorem C14_translated_add_child_is_model : forall t p c, gen_add_child t p c = add_child t p c.
+Proof. exact gen_add_child_eq. Qed.
+Theorem C14_translated_insert_child_at_index_is_model : forall t p i c, gen_insert_child_at_index t p i c = insert_child_at_index t p i c.
+Proof. exact gen_insert_child_at_index_eq. Qed.
+Theorem C14_translated_remove_child_at_index_is_model : forall t p i, gen_remove_child_at_index t p i = remove_child_at_index t p i.
+Proof. exact gen_remove_child_at_index_eq. Qed.
+Theorem C14_translated_replace_child_at_index_is_model : forall t p i c, gen_replace_child_at_index t p i c = replace_child_at_index t p i c.
+Proof. exact gen_replace_child_at_index_eq. Qed.
+Theorem C14_translated_remove_child_is_model : forall t p c, gen_remove_child t p c = remove_child t p c.
+Proof. exact gen_remove_child_eq. Qed.
+Theorem C14_translated_remove_children_range_is_model : forall t p a b, gen_remove_children_range t p a b = remove_children_range t p a b.
+Proof. exact gen_remove_children_range_eq. Qed.
+Theorem C14_translated_set_children_is_model : forall t p cs, gen_set_children t p cs = set_children t p cs.
+Proof. exact gen_set_children_eq. Qed.
+Theorem C14_translated_remove_is_model : forall t n, gen_remove t n = remove t n.
+Proof. exact gen_remove_eq. Qed.
+Theorem C14_translated_new_leaf_is_model : forall t, gen_new_leaf t = new_leaf t.
+Proof. exact gen_new_leaf_eq. Qed.
+Theorem C14_translated_new_with_children_is_model : forall t cs, gen_new_with_children t cs = new_with_children t cs.
+Proof. exact gen_new_with_children_eq. Qed.
+Theorem C14_translated_child_at_index_is_model : forall t p i, gen_child_at_index t p i = child_at_index t p i.
+Proof. exact gen_child_at_index_eq. Qed.
+(* usize is N in the translation, nat in the hand model *)
+Theorem C14_translated_child_count_is_model : forall t p, gen_child_count t p = (n <- child_count t p ;; Ok (N.of_nat n)).
+Proof. exact gen_child_count_eq. Qed.
+Theorem C14_translated_parent_is_model : forall t c, gen_parent t c = parent t c.
+Proof. exact gen_parent_eq. Qed.
+Theorem C14_translated_children_is_model : forall t p, gen_children t p = children t p.
+Proof. exact gen_children_eq. Qed.
+
+(* `gen_step` (Model/TreeGenStep.v) dispatches 10 of the 13 operations to the translated bodies (new_leaf_with_context, clear,
+   set_node_context: hand model); it is `step`, `gen_run` is `run` *)
+Theorem C14_translated_step_is_model : forall t o, gen_step t o = step t o.
+Proof. exact gen_step_eq. Qed.
+Theorem C14_translated_run_is_model : forall os t, gen_run t os = run t os.
+Proof. exact gen_run_eq. Qed.
+
+(* C14_refines restated for the step function built from the translated methods *)
+Theorem C14_translated_refines : forall t o, WF t -> pre (abs t) o ->
+  exists t' out, gen_step t o = Ok (t', out) /\ WF t' /\
+                 ~ In (next_key t) (live (abs t)) /\
+                 spec_equiv (abs t') (fst (spec_step (abs t) o (next_key t))) /\
+                 out = snd (spec_step (abs t) o (next_key t)).
+Proof. exact gen_refines. Qed.
+
+(* and the history theorem from the empty tree: no translated operation panics, WF at the end, one output per operation *)
+Theorem C14_translated_history_from_new : forall os, pre_hist tree_new os ->
+  exists t' outs, gen_run tree_new os = Ok (t', outs) /\ WF t' /\ length outs = length os.
+Proof. exact gen_history_from_new. Qed.
+
+(* non-vacuity (computed on the translated functions): good_history satisfies pre_hist (C14_example_reachable), runs on
+   `gen_run` to the same outputs, and the translated accessors answer on the final state, error payload included *)
+Example C14_translated_example :
+  pre_hist tree_new good_history /\
+  exists t, gen_run tree_new good_history = Ok (t, [RKey k1; RKey k2; RKey k3; RUnit; RUnit; RKey k2; RKey k2'; RUnit]) /\
+            gen_children t k1 = Ok [k3] /\ gen_parent t k2' = Ok (Some k3) /\ gen_child_count t k3 = Ok 1%N /\
+            gen_child_at_index t k1 0%N = Ok (RKey k3) /\ gen_child_at_index t k1 1%N = Ok (RErr k1 1%N 1%N).
+Proof. split; [exact good_history_pre | exact gen_good_history_run]. Qed.
+
 Print Assumptions C14_WF_meaning.
 Print Assumptions C14_WF_init.
 Print Assumptions C14_refines.
@@ -205,3 +269,22 @@ Print Assumptions C14_ctx_inv_preserved.
 Print Assumptions C14_fresh_context_none.
 Print Assumptions C14_example_reachable.
 Print Assumptions C14_pre_needed_example.
+Print Assumptions C14_translated_add_child_is_model.
+Print Assumptions C14_translated_insert_child_at_index_is_model.
+Print Assumptions C14_translated_remove_child_at_index_is_model.
+Print Assumptions C14_translated_replace_child_at_index_is_model.
+Print Assumptions C14_translated_remove_child_is_model.
+Print Assumptions C14_translated_remove_children_range_is_model.
+Print Assumptions C14_translated_set_children_is_model.
+Print Assumptions C14_translated_remove_is_model.
+Print Assumptions C14_translated_new_leaf_is_model.
+Print Assumptions C14_translated_new_with_children_is_model.
+Print Assumptions C14_translated_child_at_index_is_model.
+Print Assumptions C14_translated_child_count_is_model.
+Print Assumptions C14_translated_parent_is_model.
+Print Assumptions C14_translated_children_is_model.
+Print Assumptions C14_translated_step_is_model.
+Print Assumptions C14_translated_run_is_model.
+Print Assumptions C14_translated_refines.
+Print Assumptions C14_translated_history_from_new.
+Print Assumptions C14_translated_example.
